@@ -635,7 +635,7 @@ def _limit_unset_path(cfg: CFG, prog: Program, f: FuncInfo, sz: Node, n: Node) -
                         unset = (e.label == 'F') != ckd.negated if ckd.kind == 'truthy' else (e.label == 'T') != ckd.negated
                         if unset:
                             skip_edges.append(e)
-    return n.id not in cfg.reachable(cfg.entry, avoid_nodes=[sz], avoid_edges=skip_edges)
+    return n.id not in cfg.reachable_consistent(cfg.entry, avoid_nodes=[sz], avoid_edges=skip_edges)
 
 
 def _norm_size(e: ast.Compare, req_vars: Set[str]) -> str:
